@@ -228,11 +228,12 @@ static std::string classify_death(int status, const std::string& err) {
   };
   // numbers outside quoted type names become N
   auto norm_digits = [](const std::string& s) {
+    static const std::regex hexnum("0x[0-9a-fA-F]+");
     static const std::regex num("[0-9]+(\\.[0-9]+)?(e[+-]?[0-9]+)?");   // a leading '-' is kept: -N is a different class
     std::string o; size_t i = 0; bool quoted = false;
     while (i <= s.size()) {
       size_t q = s.find('\'', i); std::string part = s.substr(i, q == std::string::npos ? std::string::npos : q - i);
-      o += quoted ? part : std::regex_replace(part, num, "N");
+      o += quoted ? part : std::regex_replace(std::regex_replace(part, hexnum, "0xN"), num, "N");
       if (q == std::string::npos) break; o += '\''; quoted = !quoted; i = q + 1;
     }
     return o; };
@@ -315,6 +316,8 @@ static void account(const Input& in, const Verdict& v) {
   R.cls(in.family.substr(0, in.family.find(':')) + " / " + handler_name(in.handler) + " / " + v.cls);
   if (in.valid_base && in.handler == solmon::READ_ALL) { if (v.cls.find("+valid_base_delivered_as_reference") != std::string::npos) R.stat("valid_base_files_delivered_as_reference"); else R.stat("valid_base_files_not_delivered"); }
   for (auto& x : v.viol) R.violation("C14 " + x, input_detail_json(in, v.cls), input_replay_json(in));
+  static std::set<std::string> sampled;     // one concrete input per family prefix (evidence samples)
+  if (S.i < 2 && sampled.insert(in.family.substr(0, in.family.find(':'))).second) R.sample(input_detail_json(in, v.cls));
 }
 
 static void flush_batch() {
